@@ -471,7 +471,14 @@ fn commit_at(c: &Ctx, b: &BlockView, d: u64) -> Option<BlockView> {
 
 fn params_for(i: u64, rng: &mut Rng) -> ChainParams {
     let mut p = ChainParams::default();
-    match i % 5 {
+    match i % 6 {
+        5 => {
+            // rewards too small to fund a cell: every cellbase has to stay empty
+            p.window = (2, 4);
+            p.epoch = EpochMode::Permanent { genesis_len: 5, epoch_len: 5 };
+            p.primary_epoch_reward_ckb = Some(100);
+            p.secondary_epoch_reward_ckb = Some(10);
+        }
         0 => {
             p.window = (2, 10);
             p.epoch = EpochMode::Permanent { genesis_len: 6, epoch_len: 5 };
@@ -696,7 +703,7 @@ pub fn run(args: &Args) -> i32 {
             })
         };
         let ctx = Ctx { gi: &gi, tg: &tg, parent, now, spare_uncles, proposed_at, fresh_tx };
-        let class = format!("v{}{}", ci % 5, if v.epoch().index() == 0 { ".epoch_head" } else if v.epoch().index() + 1 == v.epoch().length() { ".epoch_tail" } else { "" });
+        let class = format!("v{}{}", ci % 6, if v.epoch().index() == 0 { ".epoch_head" } else if v.epoch().index() + 1 == v.epoch().length() { ".epoch_tail" } else { "" });
         let (mut base_fp, _) = state_fingerprint(&node);
         // ---- single-rule violations
         for (name, m) in &muts {
@@ -710,7 +717,7 @@ pub fn run(args: &Args) -> i32 {
             r.eval();
             r.count(&format!("mutants.{name}"));
             r.distinct_str(&format!("{name}|{class}"));
-            let wit = json!({"context": ci, "params_variant": ci % 5, "parent": format!("{}#{}", hx(&parent), n - 1), "mutator": name, "candidate_epoch": format!("{}", v.epoch()), "block_hex_len": mb.data().as_slice().len()});
+            let wit = json!({"context": ci, "params_variant": ci % 6, "parent": format!("{}#{}", hx(&parent), n - 1), "mutator": name, "candidate_epoch": format!("{}", v.epoch()), "block_hex_len": mb.data().as_slice().len()});
             match pipeline(&node, &mb) {
                 Outcome::RejectedByHeaderCheck(_) => r.count("rejected_by_header_check"),
                 Outcome::RejectedByChain(_) => r.count("rejected_by_chain_service"),
@@ -747,7 +754,7 @@ pub fn run(args: &Args) -> i32 {
             r.eval();
             r.count(&format!("valid_variants.{name}"));
             r.distinct_str(&format!("{name}|{class}"));
-            let wit = json!({"context": ci, "params_variant": ci % 5, "parent": format!("{}#{}", hx(&parent), n - 1), "variant": name});
+            let wit = json!({"context": ci, "params_variant": ci % 6, "parent": format!("{}#{}", hx(&parent), n - 1), "variant": name});
             match pipeline(&node, &vb) {
                 Outcome::Accepted(true) if h(&node.tip_hash()) == h(&vb.hash()) => {
                     r.count("valid_accepted");
